@@ -133,7 +133,7 @@ def model_ops_for(sizes, m):
 
 def bmm_oracle(case):
     cfg, sizes, m, acct = tuple(case["cfg"]), case["sizes"], case["max"], case.get("acct", "rdp")
-    kw = {"batches": case.get("batches"), "poisson": tuple(case["poisson"]) if case.get("poisson") else None}
+    kw = {"batches": case.get("batches"), "poisson": tuple(case["poisson"]) if case.get("poisson") else None, "zg2": bool(case.get("zg2"))}
     with rig.default_dtype(torch.float64):
         a, phys = E.run_real_bmm(cfg, sizes, m, acct=acct, use_bmm=True, **kw)
         b, logical = E.run_real_bmm(cfg, sizes, m, acct=acct, use_bmm=False, **kw)
@@ -190,6 +190,27 @@ def engine_cases(ctx):
             ctx.validated()
 
 
+def loader_options_oracle(seed):
+    """wrap_data_loader hands every option of the original loader on to the splitting loader: same dataset object, and the
+    same num_workers / collate_fn / pin_memory / timeout / worker_init_fn / generator / prefetch_factor / persistent_workers"""
+    from opacus.utils.batch_memory_manager import wrap_data_loader
+    g = torch.Generator().manual_seed(seed)
+    ds = torch.utils.data.TensorDataset(torch.zeros(12, 2))
+    coll = lambda b: torch.utils.data.default_collate(b)   # noqa: E731
+    init = lambda i: None                                   # noqa: E731
+    for nw in (0, 2):
+        kw = dict(num_workers=nw, collate_fn=coll, pin_memory=False, timeout=3 if nw else 0, worker_init_fn=init, generator=g)
+        if nw:
+            kw.update(prefetch_factor=3, persistent_workers=True)
+        dl = torch.utils.data.DataLoader(ds, batch_size=4, **kw)
+        w = wrap_data_loader(data_loader=dl, max_batch_size=2, optimizer=_RecOpt())
+        for name in ("dataset", "num_workers", "collate_fn", "pin_memory", "timeout", "worker_init_fn", "generator", "prefetch_factor", "persistent_workers"):
+            a, b = getattr(dl, name), getattr(w, name)
+            if (a is not b) and a != b:
+                return ("C10:loader-option-dropped:" + name, f"wrap_data_loader: the splitting loader has {name}={b!r}, the original loader {a!r} (num_workers={nw})", {"failing_input": {"oracle": "loader-options", "seed": seed}})
+    return None
+
+
 def sampler_kind_cases(ctx):
     """real vs real only (the protocol machine numbers tokens consecutively): logical batches with shuffled and
     repeated indices, and the real Poisson sampler with a limit around its expected batch size"""
@@ -203,8 +224,8 @@ def sampler_kind_cases(ctx):
                 n = ctx.rng.choice([0, 2, 3, 5, 7, 9])
                 batches.append([ctx.rng.randrange(6) for _ in range(n)] if ctx.rng.random() < 0.6 else ctx.rng.sample(range(12), n))
             m = ctx.rng.choice([1, 2, 3, 4])
-            case = {"cfg": cfg, "acct": acct, "sizes": [len(b) for b in batches], "max": m, "batches": batches}
-            kind, split = "repeated-or-shuffled-indices", any(len(b) > m for b in batches)
+            case = {"cfg": cfg, "acct": acct, "sizes": [len(b) for b in batches], "max": m, "batches": batches, "zg2": ctx.rng.random() < 0.5}
+            kind, split = "repeated-or-shuffled-indices" + ("/zero_grad-twice" if case["zg2"] else ""), any(len(b) > m for b in batches)
         else:
             n = ctx.rng.choice([12, 20, 30])
             ebs = ctx.rng.choice([3, 4, 6])
@@ -223,11 +244,15 @@ def run(ctx):
         sampler_cases(ctx)
         engine_cases(ctx)
         sampler_kind_cases(ctx)
+        res = loader_options_oracle(ctx.rng.randrange(1 << 30))
+        ctx.count("search:loader-options")
+        if res:
+            ctx.property_failure(res[0], res[1], res[2])
 
 
 def replay(ctx, rp):
     c = rp.get("failing_input") or rp.get("case")
-    res = bmm_oracle(c) if "sizes" in c else split_oracle(c)
+    res = loader_options_oracle(c["seed"]) if c.get("oracle") == "loader-options" else (bmm_oracle(c) if "sizes" in c else split_oracle(c))
     if res:
         print("REPRODUCED:", res[0], res[1])
         ctx.violations.append(res[0])
